@@ -29,6 +29,10 @@ def run(ck):
     ck.run_rule(d4_root_recorded)
     ck.run_rule(d5_history_monotone)
     ck.run_rule(d7_table_entries_follow_history)
+    # the history identifies positions by their hash: the hash rules of C08 are necessary here too (a hash that reads the move counters never repeats)
+    from .c08 import h1_h2_h5_influence, h4_keys
+    ck.run_rule(h1_h2_h5_influence)
+    ck.run_rule(h4_keys)
 
 
 def d1_d2_d3(ck):
